@@ -84,7 +84,9 @@ func (s *Solver) start() error {
 	if err != nil {
 		return err
 	}
-	s.cmd.Stderr = os.Stderr
+	if !strings.HasPrefix(s.Name, "cvc5") {
+		s.cmd.Stderr = os.Stderr // cvc5 reports being interrupted by the portfolio race on stderr
+	}
 	if err := s.cmd.Start(); err != nil {
 		return err
 	}
